@@ -80,17 +80,18 @@ CLAIMED = {
         note="gnark-crypto's GLV scalar multiplication is modelled by its specification (double-and-add), compared differentially.",
         tech="Coq proof (ring/field identities on coordinate formulas) + differential correspondence", ref="DESIGN.md 6.8"),
     "C01": dict(
-        text="Theorems (abstract field with partial inverse, abstract module, all inputs): the grouping of openings by "
-             "evaluation point equals the sequential aggregation for every worker count >= 1 and every arrival order of the "
-             "worker results (no opening lost when len mod workers <> 0 or workers > len); hence CreateMultiProof (proof, final "
-             "transcript, error) is schedule independent; the inner IPA argument is complete for every vector length 2^k, "
-             "evaluation point and transcript state, with prover and verifier ending in the same transcript state (premise: "
-             "the drawn round challenges are invertible); shape errors. PARTIAL: the identity <h-g,b(t)> = g2(t)-g1(t) "
-             "linking DivideOnDomain to the verifier is not proved, so end-to-end acceptance of honest statements (all "
-             "shapes: repeated z, gaps, zero/maximal polynomials, shared / non-normalised / sign-flipped commitments, CPU "
-             "counts) is decided by correspondence: Go create/verify vs model incl. next-challenge equality.",
-        note="End-to-end multiproof completeness rests on correspondence for the DivideOnDomain / g2(t) identity.",
-        tech="Coq proof (monoid of tables + permutation invariance; IPA round invariant by induction on k) + differential correspondence", ref="DESIGN.md 6.1"),
+        text="MAIN THEOREM (abstract field with partial inverse, abstract module, domain 2^k for every k): for every non-empty "
+             "list of honest openings (any number, any repetition/spread of the z_i, any polynomials), every worker count and "
+             "arrival order and every transcript state, CreateMultiProof succeeds and CheckMultiProof from the same state "
+             "accepts with the same final transcript state (same next challenge). Built from: schedule-independent grouping, "
+             "regrouping of sums over used slots into sums over openings, the DivideOnDomain quotient-evaluation identity "
+             "(partial fractions), linearity of the commitment, IPA completeness for all k with the bit-trick folding "
+             "scalars. Premises (explicit): group laws; node differences invertible and additive embedding (proved for Fr, "
+             "n=256); run-time side conditions on the drawn challenges (t outside the domain, IPA round challenges "
+             "invertible). A toy instance is evaluated in the kernel. Correspondence: Go create/verify/next-challenge vs the "
+             "extracted model on all statement shapes incl. shared / non-normalised / sign-flipped commitments and CPU counts.",
+        note="Representation independence of commitment inputs is C07/C08; associativity of the Banderwagon law is a premise (GroupLaws).",
+        tech="Coq proof (monoid of tables + permutation invariance, regrouping, fraction algebra, IPA round invariant by induction on k) + differential correspondence", ref="DESIGN.md 6.1"),
     "C02": dict(
         text="Theorems: CheckMultiProof / CheckIPAProof of the model return an error exactly on the listed shape defects "
              "(length mismatches, zero openings, L/R count <> numRounds) and a decision otherwise (total, no partial function); "
